@@ -9,6 +9,13 @@ use mutringbuf::{ConcurrentStackRB, LocalStackRB, StackSplit};
 use mutringbuf::HeapSplit;
 use std::io::Write;
 
+/// the two slices of a grant (one mirrored slice under `vmem`) as raw parts
+trait Parts<T> { fn parts(self) -> (*const T, usize, *const T, usize); }
+impl<'a, T> Parts<T> for (&'a mut [T], &'a mut [T]) { fn parts(self) -> (*const T, usize, *const T, usize) { (self.0.as_ptr(), self.0.len(), self.1.as_ptr(), self.1.len()) } }
+impl<'a, T> Parts<T> for (&'a [T], &'a [T]) { fn parts(self) -> (*const T, usize, *const T, usize) { (self.0.as_ptr(), self.0.len(), self.1.as_ptr(), self.1.len()) } }
+impl<'a, T> Parts<T> for &'a mut [T] { fn parts(self) -> (*const T, usize, *const T, usize) { (self.as_ptr(), self.len(), self.as_ptr(), 0) } }
+impl<'a, T> Parts<T> for &'a [T] { fn parts(self) -> (*const T, usize, *const T, usize) { (self.as_ptr(), self.len(), self.as_ptr(), 0) } }
+
 enum Slot<I: MRBIterator> { Att(I), Det(Detached<I>), Gone }
 
 macro_rules! both {
@@ -113,24 +120,24 @@ impl<'b, T: ItemX, B: MutRB<Item = T>, const WK: bool> Session<'b, B, WK> {
                 let r = if let Slot::Att(c) = &mut self.c { c.peek_ref().map(|x| x as *const T) } else { unreachable!() };
                 match r { Some(p) => format!("ref {} {}", self.off(p), unsafe { T::peek(p) }), None => "none".into() } }
             "getn" => { let k = st(words[1]); if !self.usable(k) { return bad; } let n = num(2);
-                let r: Option<(*const T, usize, *const T, usize)> = on!(k, it => it.get_workable_slice_exact(n).map(|(h, t)| (h.as_ptr(), h.len(), t.as_ptr(), t.len())));
+                let r: Option<(*const T, usize, *const T, usize)> = on!(k, it => it.get_workable_slice_exact(n).map(|s| s.parts()));
                 sl!(r.map(|(a, b, c, d)| unsafe { (std::slice::from_raw_parts(a, b), std::slice::from_raw_parts(c, d)) })) }
             "getavail" => { let k = st(words[1]); if !self.usable(k) { return bad; }
-                let r: Option<(*const T, usize, *const T, usize)> = on!(k, it => it.get_workable_slice_avail().map(|(h, t)| (h.as_ptr(), h.len(), t.as_ptr(), t.len())));
+                let r: Option<(*const T, usize, *const T, usize)> = on!(k, it => it.get_workable_slice_avail().map(|s| s.parts()));
                 sl!(r.map(|(a, b, c, d)| unsafe { (std::slice::from_raw_parts(a, b), std::slice::from_raw_parts(c, d)) })) }
             "getmult" => { let k = st(words[1]); if !self.usable(k) { return bad; } let n = num(2);
                 let r = std::panic::catch_unwind(std::panic::AssertUnwindSafe(|| {
-                    let r: Option<(*const T, usize, *const T, usize)> = on!(k, it => it.get_workable_slice_multiple_of(n).map(|(h, t)| (h.as_ptr(), h.len(), t.as_ptr(), t.len())));
+                    let r: Option<(*const T, usize, *const T, usize)> = on!(k, it => it.get_workable_slice_multiple_of(n).map(|s| s.parts()));
                     r }));
                 match r { Err(_) => "panic".into(), Ok(r) => sl!(r.map(|(a, b, c, d)| unsafe { (std::slice::from_raw_parts(a, b), std::slice::from_raw_parts(c, d)) })) } }
             "nextslices" => { if !self.attached(St::P) { return bad; } let n = num(1);
-                let r = if let Slot::Att(p) = &mut self.p { unsafe { p.get_next_slices_mut(n) }.map(|(h, t)| (h.as_ptr() as *const T, h.len(), t.as_ptr() as *const T, t.len())) } else { unreachable!() };
+                let r = if let Slot::Att(p) = &mut self.p { unsafe { p.get_next_slices_mut(n) }.map(|s| s.parts()) } else { unreachable!() };
                 sl!(r.map(|(a, b, c, d)| unsafe { (std::slice::from_raw_parts(a, b), std::slice::from_raw_parts(c, d)) })) }
             "peekslice" => { if !self.attached(St::C) { return bad; } let n = num(1);
-                let r = if let Slot::Att(c) = &mut self.c { c.peek_slice(n).map(|(h, t)| (h.as_ptr(), h.len(), t.as_ptr(), t.len())) } else { unreachable!() };
+                let r = if let Slot::Att(c) = &mut self.c { c.peek_slice(n).map(|s| s.parts()) } else { unreachable!() };
                 sl!(r.map(|(a, b, c, d)| unsafe { (std::slice::from_raw_parts(a, b), std::slice::from_raw_parts(c, d)) })) }
             "peekavail" => { if !self.attached(St::C) { return bad; }
-                let r = if let Slot::Att(c) = &mut self.c { c.peek_available().map(|(h, t)| (h.as_ptr(), h.len(), t.as_ptr(), t.len())) } else { unreachable!() };
+                let r = if let Slot::Att(c) = &mut self.c { c.peek_available().map(|s| s.parts()) } else { unreachable!() };
                 sl!(r.map(|(a, b, c, d)| unsafe { (std::slice::from_raw_parts(a, b), std::slice::from_raw_parts(c, d)) })) }
             "poke" | "pokeinit" | "edit" => { let k = st(words[1]); if !self.usable(k) || (words[0] == "edit" && T::OWNED) { return bad; }
                 let off = num(2); let v: u64 = words[3].parse().unwrap();
@@ -304,6 +311,10 @@ fn run_session<'b, T: ItemX, B: MutRB<Item = T>, const WK: bool>(mut s: Session<
     Next::End
 }
 
+/// number of mappings of the shared-memory object behind a vmem buffer that are still present
+#[allow(dead_code)]
+fn vmem_maps() -> usize { std::fs::read_to_string("/proc/self/maps").map(|m| m.lines().filter(|l| l.contains("mrb-")).count()).unwrap_or(0) }
+
 fn build<T: Item>(init: &[u64]) -> Vec<T> { init.iter().map(|v| if *v == 0 { T::zero() } else { T::make(*v) }).collect() }
 
 macro_rules! heap_run {
@@ -466,6 +477,7 @@ fn run_file(path: &str, out: &mut impl Write) {
             _ => panic!("unsupported configuration: {l}"),
         }
         EXPECT_DROP.with(|c| c.set(false));
+        if l.contains("vmem=1") { writeln!(out, "maps={}", vmem_maps()).unwrap(); }
         // skip the rest of a history whose construction panicked
         while ls.pos < ls.lines.len() && !ls.lines[ls.pos].starts_with("cfg") && !ls.lines[ls.pos].starts_with('#') {
             if !ls.lines[ls.pos].trim().is_empty() { writeln!(out, "skip").unwrap(); }
